@@ -9,6 +9,10 @@ documentation of `NewLRUSessionCache` / `SessionCache` and not from the code.
 * `get k` returns the value stored under `k` and makes it the most recent;
 * `get ""` returns the most recent value without touching the order (documented special).
 
+Documented side effect of an eviction (`NewLRUSessionCache`: "evicts the least recently used
+entry and zeroes the corresponding master secret"): the master secret of the session held by
+the evicted entry is overwritten. Nothing else about any session may change.
+
 Core Lean only.
 -/
 namespace Gotlcp.Spec.LRUMap
@@ -26,6 +30,11 @@ def lookup {V} (l : List (Key × V)) (k : Key) : Option V := (l.find? (·.1 == k
 def put {V} (m : Map V) (k : Key) : Option V → Map V
   | some v => { m with items := ((k, v) :: erase m.items k).take m.cap }
   | none   => { m with items := erase m.items k }
+
+/-- the entries a store pushes out of the map: the least recently used ones beyond the capacity -/
+def evictedByPut {V} (m : Map V) (k : Key) : Option V → List (Key × V)
+  | some v => ((k, v) :: erase m.items k).drop m.cap
+  | none   => []
 
 /-- result of a lookup: the value and the `ok` flag -/
 def get {V} (m : Map V) (k : Key) : Map V × Option V :=
